@@ -355,6 +355,9 @@ def run(pm, ctx):
                        'stone.backends.python_helpers'),
                       True, 'python_type_stubs', TOTALITY_PRECONDITIONS, (10, 3, 0))
 
+    ctx.import_rules(pm, 'C02', {'C02-R12'}, 'C15-R5',
+                     'the unwrap helpers of the IR peel exactly the wrappers their names say '
+                     '(shared with C02-R12)')
     from ..effects import run_decisions
     from ..ownership import OWN
     run_decisions(pm, ctx, 'C15-RD', OWN['C15'])
